@@ -320,6 +320,10 @@ def run_ctors(case, v):
         v.check(ok, 'cutoff_exponential_end',
                 f'Env.cutoff {case!r}: array {list(got[0])!r}')
         labels.append('cutoff:exponential')
+    if name in ('pairs', 'xyc'):
+        xs = [q[0] for q in case[name]]
+        if len(set(xs)) < len(xs):
+            labels.append('equal_times')
     if name not in ('step', 'pairs', 'xyc'):
         if not case['args']:
             labels.append('all_defaults')
@@ -590,20 +594,28 @@ def ctor_case(draw, names=None):
                                      st.sampled_from([0.1, 2.1, 3, 0.3, 7])),
                            min_size=n, max_size=n, unique=True))
         ys = draw(st.lists(level, min_size=n, max_size=n))
+
+        def jumps(xs):
+            # points given in time order may repeat a time (instantaneous
+            # jump): they must stay in the given order
+            xs = sorted(xs)
+            for i in draw(st.lists(st.integers(0, n - 2), max_size=2)):
+                xs[i + 1] = xs[i]
+            return sorted(xs)
         if name == 'xyc':
             cs = draw(st.lists(curve_item, min_size=n, max_size=n))
             if draw(st.booleans()):
-                xs = sorted(xs)
+                xs = jumps(xs)
             case['xyc'] = [[x, y, c] for x, y, c in zip(xs, ys, cs)]
             return case
         ckind = draw(st.sampled_from(['none', 'scalar', 'list']))
         if ckind == 'list':
-            xs = sorted(xs)
+            xs = jumps(xs)
             case['curves'] = draw(st.lists(curve_item, min_size=n,
                                            max_size=n))
         else:
             if draw(st.booleans()):
-                xs = sorted(xs)
+                xs = jumps(xs)
             if ckind == 'scalar':
                 case['curves'] = draw(st.one_of(curve_name, curve_num))
         case['pairs'] = [[x, y] for x, y in zip(xs, ys)]
